@@ -16,7 +16,7 @@ from stubs import posixfs, sqlshim
 from harness.sync import same_dict
 
 SYMBOLIC_KEYS = ('dict', 'null', 'file', 'filejson')
-UNIVERSE = {'dir': ('a', 'b', 1, ('t', 2), 'c-d'), 'dirjson': ('a', 'b', 1, 'c-d'), 'dirfast': ('a', 'b', ('t', 2)),
+UNIVERSE = {'dir': ('a', 'c-d', 1, ('t', 2)), 'dirjson': ('a', 'c-d', 1), 'dirfast': ('a', 'b', ('t', 2)),
             'sql': ('a', 'b', 1), 'sqlfile': ('a', 'b', 1)}
 PERSISTENT = ('file', 'filejson', 'dir', 'dirjson', 'dirfast', 'sqlfile')
 
@@ -405,7 +405,7 @@ class Arch:
             b[bk] = bv
             DB[bk] = bv
         others = [(b, DB)]
-        if kind in PERSISTENT or kind == 'sql':
+        if (kind in PERSISTENT or kind == 'sql') and 'eq' in (self.cfg.get('first') or ()):
             # a third archive whose *name* has the same last component (another directory / another in-memory database)
             c3 = make(kind, 'elsewhere/memo', self.scratch) if kind != 'sql' else make(kind, 'memo')
             others.append((c3, {}))
